@@ -240,7 +240,8 @@ def rule_set_unset(ctx):
     for kind, want in (("SET variable", "set"), ("UNSET variable", "unset")):
         for tr in traces(prog, kind):
             vars_obj = tr.conn.attrs["variables"]
-            mapping = vars_obj.attrs.get("_variables")
+            from ..execmodel import R
+            mapping = vars_obj.attrs.get(R().variables)
             sets = [e for e in tr.path.effects if e[0] == "dictset" and e[1] is mapping]
             pops = [e for e in tr.path.effects if e[0] == "call" and str(e[1]).endswith(".pop")]
             nop = tr.engine_sql and "SUCCESS_NOP" in tagof(tr.engine_sql[0])
